@@ -33,6 +33,8 @@ def gen_cases(tier, seed):
                              "vlow": [0x0A, 0x0D, 0x20, 0x09, 0x00, 0x30, 0x78, 0x01][i % 8], "lhigh": [0x0A, 0x0D, 0x20, 0x09, 0x00, 0x30, 0x01][i % 7]}
     for i in range(1500 if q else 15000):
         yield "block", {"seed": rng.getrandbits(48), "n": 1 + i % 5, "dup": i % 4 == 0}
+    for i in range(6 if q else 60):
+        yield "arg_forms", {"seed": rng.getrandbits(48), "segwit": i % 2 == 0}
 
 
 def required(tier):
@@ -93,6 +95,16 @@ def _check_ids(ctx, t, raw, trailing_cls, X, where="alone"):
 def run_case(kind, params, ctx):
     import bits.blockchain as bc
     _selfcheck(ctx)
+    if kind == "arg_forms":
+        from .common import arg_forms
+        import bits.tx as btx
+        rng = rng_for("C04af", params["seed"])
+        raw = txref.ser_tx(txgen.gen_tx(rng, "normal", params["segwit"]))
+        arg_forms(ctx, "tx_deser", btx.tx_deser, [raw], prop_exc=(ContractViolation,))
+        arg_forms(ctx, "tx_deser(include_raw)", lambda b: btx.tx_deser(b, include_raw=True), [raw + b"\x07"], prop_exc=(ContractViolation,))
+        arg_forms(ctx, "txid", btx.txid, [raw], prop_exc=(ContractViolation,))
+        ctx.nontrivial()
+        return
     if kind == "cli_decode":
         from . import clihelp
         rng = rng_for("C04cli", params["seed"])
